@@ -70,6 +70,34 @@ for _n, _f, _b in [
     ("leaf_ext_early_data", "parse_tls_extension_early_data_content", 6), ("leaf_ext_supported_versions", "parse_tls_extension_supported_versions_content", 7),
     ("leaf_ext_oid_filters", "parse_tls_extension_oid_filters + parse_tls_oid_filter", 9)]:
     _leaf(_n, _f, "input <= %d bytes, ext_len u16 full domain where taken" % _b)
+_leaf("fd_dtls_header", "parse_dtls_record_header", "16-byte buffer, symbolic length (reads 13 bytes): every type, version, epoch, 48-bit sequence number and length", "fd", True)
+_leaf("fd_dtls_ccs_alert", ["parse_dtls_message_changecipherspec", "parse_dtls_message_alert"], "4-byte buffer, symbolic length", "fd", True)
+_leaf("fd_dtls_is_fragment", "DTLSMessage::is_fragment", "all header field values, three body shapes", "fd", True)
+_leaf("leaf_dtls_hvr", "parse_dtls_hello_verify_request", "input <= 8 bytes")
+_leaf("leaf_dtls_fragment", "parse_dtls_fragment", "input <= 6 bytes (body is length-independent)")
+_leaf("mod_dtls_client_hello", "parse_dtls_client_hello (list helpers replaced by their contract stubs)", "input <= 52 bytes, all lengths symbolic (cookie 0..~10 reachable)", "mod")
+_leaf("leaf_dh_params", "parse_dh_params / ServerDHParams::parse", "input <= 10 bytes")
+_leaf("leaf_digitally_signed", ["parse_digitally_signed", "parse_digitally_signed_old"], "input <= 8 bytes")
+_leaf("leaf_ec_parameters", ["parse_ec_parameters", "ECParametersContent::parse", "ExplicitPrimeContent::parse"], "input <= 10 bytes, all 256 curve types")
+_leaf("leaf_ecdh_params", "parse_ecdh_params", "input <= 8 bytes, named-curve form")
+_leaf("leaf_content_and_signature", "parse_content_and_signature", "input <= 8 bytes, both values of the negotiation flag, 1-byte content parser")
+_leaf("leaf_sct_entry", ["parse_ct_signed_certificate_timestamp", "parse_ct_signed_certificate_timestamp_content", "parse_log_id", "parse_ct_extensions"], "input <= 52 bytes (minimal SCT is 47 bytes + 2 length bytes)")
+_leaf("leaf_sct_list_short", "parse_ct_signed_certificate_timestamp_list", "input <= 12 bytes (no well-formed entry fits: exercises the never-yields-an-SCT clauses)")
+_leaf("leaf_sct_list_tiny", "parse_ct_signed_certificate_timestamp_list", "input <= 6 bytes")
+_leaf("fd_c17_consts", "205 named registry constants", "no input", "fd", True)
+_leaf("fd_conversions", "From/Deref/AsRef/to_be_bytes/from_u16 of the registry newtypes", "every u8 and every u16 value", "fd", True)
+_leaf("fd_signature_scheme", ["SignatureScheme::hash_alg", "SignatureScheme::sign_alg", "SignatureScheme::is_reserved"], "every u16 value", "fd", True)
+_leaf("fd_key_bits", "NamedGroup::key_bits", "every u16 value", "fd", True)
+_leaf("leaf_ch_accessors_tls", "ClientHello trait on TlsClientHelloContents (+ new, get_version)", "random <= 36 bytes (incl. != 32), <= 2 ciphers, 1 compression")
+_leaf("leaf_ch_accessors_dtls", "ClientHello trait on DTLSClientHello", "random <= 36 bytes, <= 2 ciphers, 1 compression")
+_leaf("fd_server_hello_ctor", ["TlsServerHelloContents::new", "TlsServerHelloContents::get_version"], "all argument values", "fd", True)
+_leaf("fd_from_id", ["TlsCipherSuite::from_id", "TryFrom<u16>", "TryFrom<TlsCipherSuiteID>", "TlsCipherSuiteID::get_ciphersuite"], "every u16 id", "fd", True)
+_leaf("fd_ciphers_len", "CIPHERS", "no input", "fd", True)
+_leaf("fd_route_try_from_u16", "TryFrom<u16> for &TlsCipherSuite", "every u16 id", "fd", True)
+_leaf("fd_route_try_from_id", "TryFrom<TlsCipherSuiteID> for &TlsCipherSuite", "every u16 id", "fd", True)
+_leaf("fd_route_get_ciphersuite", "TlsCipherSuiteID::get_ciphersuite", "every u16 id", "fd", True)
+_leaf("fd_cipher_sizes", ["TlsCipherSuite::enc_key_size", "mac_length", "enc_block_size"], "every registry entry (symbolic id)", "fd", True)
+_leaf("fd_c12_rows", "CIPHERS (every row, all 10 columns)", "every u16 id (symbolic): listed ids carry the listed row, unlisted ids are absent", "fd", True)
 for _k in range(5):
     HARNESS["fd_states_cells_%d" % _k] = dict(kind="fd", proved=True, fns=["tls_state_transition", "tls_state_transition_handshake"],
         bound="states %d..%d x 22 message shapes x both directions x all 256x256 alert bytes; payload contents minimal (<= 2 bytes) - content-independence is the Verus unit's job" % (5 * _k, 5 * _k + 4))
@@ -154,6 +182,68 @@ PROPS = {
                           "shim_be", "shim_take", "shim_length_data"],
                    thorough=["leaf_hs_certificate_request", "mod_client_hello_long"], timeout=400, timeout_thorough=1500)],
         paired={"dispatch_hs": []},
+        explanation="see level_text",
+    ),
+    "C10": dict(
+        level="model_checking",
+        level_text="Unbounded deductive proofs (Verus) on the real parse_dtls_message_handshake (12-byte header fields verbatim, take(fragment_length), is_fragment <=> offset>0 or fragment_length<length, Fragment of exactly fragment_length bytes, body table, Switch otherwise), parse_dtls_plaintext_record (13-byte header, cap, Incomplete iff truncated with exact Needed, glue), parse_dtls_record_with_header and parse_dtls_plaintext_records (explicit loops). The 13-byte header decode is a full-domain Kani proof; the body parsers (ClientHello with cookie, HelloVerifyRequest, fragment) are Kani contract harnesses, bounded in input length.",
+        level_note="Trusted: nom shims (be_u8/16/24, take, map, map_parser, complete, many1); DTLS body parsers uninterpreted in Verus; R9 (closure signature + ensures), R10 (constructor eta-expanded into a closure with its trivial contract); ServerHello/Certificate/ServerDone/ClientKeyExchange bodies are the C04 parsers (checked there).",
+        technique="contract-based deductive verification: Verus on extracted dispatcher/record glue + Kani full-domain header harness and leaf harnesses",
+        verus=["dtls", "dtls_many"],
+        kani=[dict(quick=["fd_dtls_header", "fd_dtls_ccs_alert", "fd_dtls_is_fragment", "leaf_dtls_hvr", "leaf_dtls_fragment", "mod_dtls_client_hello", "shim_be", "shim_take", "shim_map_parser", "shim_many1"], timeout=400)],
+        explanation="see level_text",
+    ),
+    "C16": dict(
+        level="proof",
+        level_text="Unbounded deductive proof (Verus) that the real bodies of tls_parser_many and parse_dtls_plaintext_records are the explicit accumulate-while-Ok loop over the single-record parser (records in order, remainder at the first record that fails or is incomplete), that they fail iff the first record does not parse (lemma, for a record parser that consumes input on success and never answers Failure), and that tls_parser(i) == parse_tls_plaintext(i). Relative to the nom many1/complete contracts, which Kani checks on the real nom (bounded).",
+        level_note="Trusted: nom shim contracts complete/many1 (assumed in Verus; Kani shim_complete / shim_many1 on the real nom with a cheap element type, input <= 4 bytes - bounded, NOT proved); 'fun_of(parse_tls_plaintext) is the function it computes' (determinism of safe state-free code); single-record parsers abstract here (their contracts: C02, C10).",
+        technique="contract-based deductive verification: Verus postconditions on extracted one-line bodies over relational combinator contracts",
+        verus=["many", "dtls_many"],
+        kani=[dict(quick=["shim_complete", "shim_many1"], timeout=300)],
+        explanation="see level_text",
+    ),
+    "C13": dict(
+        level="model_checking",
+        level_text="Kani contract harnesses on the compiled derive-generated parsers (ServerDHParams, ECParameters both forms, ServerECDHParams, ECPoint, both DigitallySigned forms, parse_content_and_signature for both flag values) against index-based reference decoders: exact field values by pointer identity, exact consumption, all 256 curve types, all algorithm bytes; complete in byte contents, BOUNDED in input length (8..10 bytes; larger length fields land in the Incomplete class).",
+        level_note="Bounded model checking, not proof: the parsers are generated by nom-derive macros and cannot be sliced into Verus. Trusted: reference decoders in /verif/kani/pub_c13_kx.rs written from RFC 4492/5246.",
+        technique="contract harnesses (pre/post predicates) on the real code, Kani/CBMC, bounded length",
+        kani=[dict(quick=["leaf_dh_params", "leaf_digitally_signed", "leaf_ec_parameters", "leaf_ecdh_params", "leaf_content_and_signature"], timeout=400)],
+        explanation="see level_text",
+    ),
+    "C14": dict(
+        level="model_checking",
+        level_text="Kani contract harnesses: single SCT entry (u16 prefix, version, 32-byte log id by pointer, be64 timestamp over the full range, u16 extensions, hash/signature bytes, u16 signature, exact consumption; a field cut off by the entry length never yields an SCT) on inputs <= 52 bytes; list framing (u16 total, confinement, entry longer than the list / list longer than the input never yields an SCT) on short inputs. Bounded in input length; the n-entry in-order clause rests on the many0 shim contract (Kani shim_many0).",
+        level_note="Bounded model checking, not proof. Lists with >= 1 well-formed SCT (>= 49 bytes each) are beyond what CBMC finishes for the list parser; in-order decoding of n entries follows from the single-entry contract + nom many0/map_parser contracts (shim harnesses), not from a run.",
+        technique="contract harnesses on the real code, Kani/CBMC, bounded length",
+        kani=[dict(quick=["leaf_sct_entry", "leaf_sct_list_tiny", "shim_many0", "shim_map_parser", "shim_length_data"], thorough=["leaf_sct_list_short"], timeout=400, timeout_thorough=1500)],
+        explanation="see level_text",
+    ),
+    "C15": dict(
+        level="model_checking",
+        level_text="Kani contract harnesses on the ClientHello trait (TLS and DTLS impls), constructors and getters: every accessor returns the structure's own field (pointer identity for slices), rand_time() == be32(first four random bytes) and rand_bytes() == the rest for every random of length 4..36 (incl. 32), new()/get_version() store and return their arguments. Full domain in every integer; bounded in list length (<= 2 ciphers). cipher_suites()/get_ciphers()/get_cipher() are compositions of the accessors with from_id, which C12 proves over all ids.",
+        level_note="Bounded in cipher-list length; registry mapping of cipher_suites() rests on fd_from_id (C12).",
+        technique="contract harnesses on the real code, Kani/CBMC",
+        kani=[dict(quick=["leaf_ch_accessors_tls", "leaf_ch_accessors_dtls", "fd_server_hello_ctor", "fd_from_id"], timeout=400)],
+        explanation="see level_text",
+    ),
+    "C17": dict(
+        level="proof",
+        level_text="Complete proofs over finite domains (Kani, loop-free, every u8/u16 value): 205 named constants equal their IANA values (oracle transcribed from the IANA registries), all integer conversions are the identity, SignatureScheme splits into high/low byte with 0xFE00-0xFEFF reserved, key_bits() is the field size the curve name states and None for unregistered groups. Display/Debug TEXT is outside both verifiers' reach (no str reasoning in Verus, core::fmt too costly in CBMC): decided by an exhaustive-execution stand-in over all values of all 16 printing registry types, labelled as such and not counted as proved.",
+        level_note="Trusted: oracles/iana_registries.py (hand transcription). The name/format stand-in executes format!() on the real crate for every value (18 x <= 65536) in a normal build; it is exhaustive but not deductive.",
+        technique="full-domain Kani harnesses (complete proofs); exhaustive execution stand-in for formatted text",
+        generators=["gen_c17.py"],
+        kani=[dict(quick=["fd_c17_consts", "fd_conversions", "fd_signature_scheme", "fd_key_bits"], timeout=300)],
+        standins=[dict(name="registry_names", kind="exhaustive-execution", bound="every value of every printing registry newtype (16 types x 256 or 65536 values)", payload={"names_check": 1})],
+        explanation="see level_text",
+    ),
+    "C12": dict(
+        level="proof",
+        level_text="Complete proofs over finite domains (Kani): every row of scripts/tls-ciphersuites.txt (independent parser) is in the phf registry with all 10 columns (352 x 10 generated assertions), the registry has exactly that many entries, for every 16-bit id each lookup route returns a suite iff listed, carrying that id, all routes the same entry; derived sizes consistent for every entry. The txt itself is checked against a frozen snapshot (assignments never altered) and against the algorithm tokens of each name. By-name lookup over all strings is intractable for CBMC: exhaustive-execution stand-in over the listed names and ~15k perturbations (bounded, not proof).",
+        level_note="Trusted: oracles/ciphersuites.snapshot (copy of the txt at the pinned commit); the generator's token rules. Name text in the row assertions is probed (length + 2 characters); full name equality is part of the by-name stand-in.",
+        technique="generated full-domain Kani harnesses; exhaustive execution stand-in for by-name lookup",
+        generators=["gen_c12.py"],
+        kani=[dict(quick=["fd_from_id", "fd_route_try_from_u16", "fd_route_try_from_id", "fd_route_get_ciphersuite", "fd_ciphers_len", "fd_cipher_sizes", "fd_c12_rows"], timeout=400)],
+        standins=[dict(name="cipher_by_name", kind="bounded-execution", bound="352 listed names + every proper prefix, 4 suffixes, case/space changes and 10 token swaps each (~15.7k strings)", payload={"cipher_names_check": 1})],
         explanation="see level_text",
     ),
 }
